@@ -56,7 +56,7 @@ RULE = ("seeded histories (6-30 operations) over filter()/check() of pool inputs
 COMPONENTS = {"real": ["operon_ai.organelles.membrane.Membrane (x2)", "operon_ai.surveillance.innate.InnateImmunity",
                        "JSONValidator", "LengthValidator", "CharacterSetValidator"],
               "stub": ["membrane.time (virtual clock)", "datetime.now in innate.py (virtual clock)",
-                       "on_threat / on_inflammation callbacks (recorders)",
+                       "on_threat / on_inflammation observers (scripted: record, or raise KeyError/TypeError/AttributeError/RuntimeError once or always)",
                        "threads family: threading.Lock (SimLock), the OS scheduler (seeded scheduler)"]}
 ASSUMPTIONS = [
     "'for all input strings' is sampled from the generated pool described in the rule; no stronger claim",
@@ -85,7 +85,7 @@ EXPECT_PROBES = ("rejudged_after_tightening", "replay_blocked_after_relax", "rat
                  "audit_cleared", "learned_blocked", "imported_blocked", "forgot_then_allowed", "case_pair_blocked",
                  "embed_pair_blocked", "long_input", "deep_json", "ctrl_input", "surrogate_input", "cooldown_low",
                  "cooldown_ended", "innate_structural_block", "clock_backward", "threshold_relaxed", "learn_refused_non_adaptive",
-                 "threads_run", "threads_preempted_in_filter", "threads_one_slot_left", "threads_rate_refused",
+                 "observer_raised", "inflammation_observer_raised", "replay_after_raising_observer", "threads_run", "threads_preempted_in_filter", "threads_one_slot_left", "threads_rate_refused",
                  "threads_edge_crossed", "threads_replay_blocked", "preempted_while_holding_a_lock", "lock_blocked")
 
 WINDOW = 60.0
@@ -314,6 +314,8 @@ def _gen_seq(rng, tier):
                 ops.append(["learn", j, c, rng.choice([2, 3, 3])])
             else:
                 x = _inst(rng, ("mi", "mi", "cu"))
+            if rng.random() < 0.35:     # the alert sink fails while the refusal is announced
+                ops.append(["cb", j, rng.choice(CB_MODES)])
             ops.append(["f", j, x])
             if how in ("learned", "both"):
                 ops.append(["forget", j, x[1]])
@@ -375,6 +377,8 @@ def _gen_seq(rng, tier):
                 if rng.random() < 0.7:
                     ops.append(["c", x])
         elif seg == "inflame":
+            if rng.random() < 0.25:
+                ops.append(["icb", rng.choice(CB_MODES)])
             ops.append(["c", _inst(rng, ("ii", "ii", "mi", "cu"))])
             ops.append(["c", ["b", rng.randrange(1, len(BENIGN))]])
             ops.append(["iclock", rng.choice([-0.01, 0.01, -30.0, 30.0])])
@@ -407,6 +411,8 @@ def _gen_seq(rng, tier):
                 ops.append(["f", rng.randrange(2), x] if rng.random() < 0.6 else ["c", x])
             if rng.random() < 0.5:
                 ops.append(["addsig", j, rng.randrange(len(CUSTOM)), rng.choice([1, 2, 3])])
+            if rng.random() < 0.2:
+                ops.append(["cb", rng.randrange(2), rng.choice(CB_MODES)])
     return {"config": cfg, "ops": ops}
 
 
@@ -459,6 +465,7 @@ class MembraneModel:
         self.roots = {}
         self.forgotten = []
         self.allowed_before = set()
+        self.announced = set()
 
     def active(self):
         return self.fixed + [(p, l, rx, o) for p, (l, rx, o) in self.learned.items()]
@@ -490,25 +497,52 @@ def _changed(roots):
         roots[key] = "changed"
 
 
+class Observer:
+    """Scripted on_threat / on_inflammation sink: records what it was shown (values, not the object) and, when told
+    to, raises a built-in exception from its own body - the caller's own exception, never flagged; the gate's state
+    must still be right afterwards."""
+    KINDS = {"KeyError": lambda: KeyError("sink"), "TypeError": lambda: TypeError(""),
+             "AttributeError": lambda: AttributeError("sink has no attribute 'post'"), "RuntimeError": lambda: RuntimeError()}
+
+    def __init__(self, snap):
+        self.snap, self.mode, self.seen, self.raised = snap, "rec", [], None
+
+    def __call__(self, r):
+        self.seen.append(self.snap(r))
+        if self.mode != "rec":
+            kind = self.mode.split(":")[-1]
+            if self.mode.startswith("once:"):
+                self.mode = "rec"
+            self.raised = self.KINDS[kind]()
+            raise self.raised
+
+
+CB_MODES = ["once:KeyError", "once:TypeError", "once:AttributeError", "once:RuntimeError", "KeyError", "rec"]
+
+
 # ----------------------------------------------------------------------------- run
 def _run_seq(plan, k):
     cfg = plan["config"]
-    threats = []
-    mem, mm = [], []
+    mem, mm, obs = [], [], []
     for j in range(2):
         c = cfg["m"][j]
         mem.append(Membrane(signatures=[ThreatSignature(CUSTOM[i][0], ML(l), f"custom {i}", CUSTOM[i][1])
                                         for i, l in c["custom"]] or None,
                             threshold=ML(c["threshold"]), enable_adaptive=c["adaptive"], rate_limit=c["rate"],
-                            on_threat=lambda r: threats.append(r.allowed), silent=quiet()))
+                            on_threat=None, silent=quiet()))
+        obs.append(Observer(lambda r: (bool(r.allowed), r.threat_level.value, len(r.matched_signatures))))
+        obs[j].mode = c.get("cb", "rec")
+        mem[j].on_threat = obs[j]
         mm.append(MembraneModel(c))
     ic = cfg["innate"]
-    inflamed = []
     inn = InnateImmunity(patterns=[TLRPattern(CUSTOM[i][0], PAMPCategory.INSTRUCTION_OVERRIDE, f"custom {i}",
                                               is_regex=CUSTOM[i][1], severity=s) for i, s in ic["patterns"]] or None,
                          validators=[make_validator(v) for v in ic["validators"]] if ic["validators"] else None,
                          severity_threshold=ic["threshold"], inflammation_decay_minutes=ic["decay"],
-                         on_inflammation=lambda r: inflamed.append(int(r.level)), silent=quiet())
+                         on_inflammation=None, silent=quiet())
+    iobs = Observer(lambda r: int(r.level))
+    iobs.mode = ic.get("cb", "rec")
+    inn.on_inflammation = iobs
     im = InnateModel(ic)
     k.key = [cfg, plan["ops"]]
 
@@ -521,6 +555,22 @@ def _run_seq(plan, k):
         now = CLOCK.now
         n0 = len(m.get_audit_log())
         out = call(m.filter, Signal(content=x))
+        if out.kind == "raised" and out.exc is obs[j].raised:
+            # the caller's own observer raised: not the gate's fault, but the decision it announced must be
+            # audited and remembered all the same
+            obs[j].raised = None
+            seen = obs[j].seen[-1]
+            k.ev("f", [j, d, "observer_raised", list(seen)])
+            k.probe("observer_raised")
+            log = m.get_audit_log()
+            if len(log) != n0 + 1:
+                k.violation("audit", "not_appended", "membrane:raising_observer", f"{n0}->{len(log)} after the announced decision")
+            elif log[-1].allowed != seen[0]:
+                k.violation("audit", "entry_differs_from_decision", "membrane:raising_observer")
+            if not seen[0]:
+                model.blocked.add(x)        # announced as refused with its signature matches: a scan-path refusal
+                model.announced.add(x)
+            return None
         if not out.ok:
             k.ev("f", [j, d, out.brief()])
             if out.kind == "raised":
@@ -577,6 +627,8 @@ def _run_seq(plan, k):
                     k.probe("window_edge_refuse")
             if was_blocked and not blocking:
                 k.probe("replay_blocked_after_relax")
+                if x in model.announced:
+                    k.probe("replay_after_raising_observer")
             if got and x in model.allowed_before:
                 k.probe("rejudged_after_tightening")
             if any(h[3] == "learned" and h[1] >= model.threshold for h in hits) and got:
@@ -594,6 +646,14 @@ def _run_seq(plan, k):
         _note_input(k, d, x)
         now = CLOCK.now
         out = call(inn.check, x)
+        if out.kind == "raised" and out.exc is iobs.raised:
+            iobs.raised = None
+            lvl = iobs.seen[-1]
+            k.ev("c", [d, "observer_raised", lvl])
+            k.probe("inflammation_observer_raised")
+            if lvl > int(InflammationLevel.NONE):       # the announced inflammation still starts its cool-down
+                im.cool_until = now + im.decay
+            return None
         if not out.ok:
             k.ev("c", [d, out.brief()])
             if out.kind == "raised":
@@ -760,6 +820,12 @@ def _run_seq(plan, k):
             im.validators.append(list(op[1]))
             _changed(im.roots)
             k.ev("ival", op[1])
+        elif name == "cb":
+            obs[op[1]].mode = op[2]
+            k.ev("cb", [op[1], op[2]])
+        elif name == "icb":
+            iobs.mode = op[1]
+            k.ev("icb", op[1])
         elif name == "ireset":
             inn.reset_inflammation()
             im.cool_until = None
@@ -767,7 +833,7 @@ def _run_seq(plan, k):
             k.ev("ireset")
         else:
             raise ValueError(name)
-    k.ev("callbacks", [len(threats), len(inflamed)])
+    k.ev("callbacks", [len(obs[0].seen), len(obs[1].seen), len(iobs.seen)])
 
 
 def _note_input(k, d, x):
